@@ -954,10 +954,10 @@ fn init_expr_of(ty: VT, k: i64, get: Option<u32>, reff: Option<u32>) -> (InitExp
     (InitExpr::new(vec![InitInstr::Value(v)]), vec![format!("{:?}", op)])
 }
 
-fn global_ty_dbg(ty: VT, mutable: bool) -> String {
+pub fn global_ty_dbg(ty: VT, mutable: bool) -> String {
     format!("{:?}", wasmparser::GlobalType { content_type: wasmparser_valtype(ty), mutable, shared: false })
 }
-fn mem_ty(min: u64, max: Option<u64>, is64: bool, shared: bool) -> wasmparser::MemoryType {
+pub fn mem_ty(min: u64, max: Option<u64>, is64: bool, shared: bool) -> wasmparser::MemoryType {
     wasmparser::MemoryType { memory64: is64, shared, initial: min, maximum: max, page_size_log2: None }
 }
 
